@@ -139,7 +139,13 @@ inline int guarded(const uint8_t* p, size_t n, std::string* sig_out = nullptr, s
   ByteSource s(p, n);
   std::string sig, msg;
   bool failed = false;
-  try { run_case(s, ci); }
+  try {
+#ifdef HARNESS_MAIN_THREAD_CASES
+    run_case(s, ci);                                   // harnesses that manage threads / per-thread baselines themselves
+#else
+    in_fresh_thread([&] { run_case(s, ci); });         // default: every case starts from pristine thread-local library state
+#endif
+  }
   catch (const Fail& f) { failed = true; sig = f.sig; msg = f.msg; }
   catch (const std::bad_alloc& e) { failed = true; sig = std::string(PROPERTY) + "|unexpected-bad_alloc"; msg = e.what(); }
   catch (const std::exception& e) {
